@@ -12,6 +12,15 @@
       (useCompact is off), of a [string] the shortest str header + the bytes; [Unmarshal] into
       *int accepts nil, fixnums and every (u)int8..64 code, into *string accepts nil, fixstr,
       str8/16/32 and bin8/16/32; trailing bytes after the first value are ignored.
+    Stage B adds (a) the struct cursor of the library itself, [TimeBasedCursor{Nano int64; Id string}]
+    (pagination.go:666-669): msgpack encodes a struct as a map field name -> value, and decodes it
+    with decodeStructValue (decode_map.go): nil, a map (fixmap/map16/map32; unknown keys are
+    skipped with Decoder.Skip) or an array (fixarray/array16/array32; extra elements skipped);
+    (b) Decoder.Skip for EVERY first byte 0x00-0xff ([mp_header]); (c) the length bound
+    MaxCursorLength = 65536 of SerializeCursor / DeserializeCursor (fix 9d...: see findings).
+    Loops whose trip count comes from the input (map32 / array32 claim up to 2^32-1 elements) and
+    the recursion of Skip run on explicit fuel with a distinct [DOutOfFuel] / [SkOutOfFuel]
+    outcome; CursorCodecTotal.v proves fuel = length of the input always suffices.
     No proofs in this file. *)
 From Coq Require Import List NArith ZArith Bool.
 From ApiFu Require Import Base.Sexp.
@@ -137,26 +146,268 @@ Definition mp_decode_str (b : bytes) : option bytes :=
       else None
   end.
 
-(** ** cursors *)
-Inductive cursor := CInt (z : Z) | CStr (s : bytes).
-Inductive kind := KInt | KStr.     (* config.CursorType: reflect.TypeOf(0) / reflect.TypeOf("") *)
 
-Definition kind_of (c : cursor) : kind := match c with CInt _ => KInt | CStr _ => KStr end.
-
-(** SerializeCursor *)
-Definition cursor_encode (c : cursor) : bytes :=
-  b64_encode (match c with CInt z => mp_encode_int z | CStr s => mp_encode_str s end).
-
-(** DeserializeCursor; [None] is Go's nil *)
-Definition cursor_decode (k : kind) (s : bytes) : option cursor :=
-  match b64_decode s with
+(** ** msgpack, stream readers: the value and the bytes after it (DecodeInt64 / DecodeString in the
+    middle of a document) *)
+Definition mp_read_uint (n : N) (rest : bytes) : option (Z * bytes) :=
+  match take n rest with Some b => Some (be_decode b, skipn (N.to_nat n) rest) | None => None end.
+Definition mp_read_sint (n : N) (rest : bytes) : option (Z * bytes) :=
+  match take n rest with
+  | Some b => Some (wrap_signed (8 * Z.of_N n) (be_decode b), skipn (N.to_nat n) rest)
   | None => None
-  | Some b =>
-      match k with
-      | KInt => match mp_decode_int b with Some z => Some (CInt z) | None => None end
-      | KStr => match mp_decode_str b with Some x => Some (CStr x) | None => None end
+  end.
+
+(** Decoder.DecodeInt64 = readCode + Decoder.int(c) *)
+Definition mp_read_int (b : bytes) : option (Z * bytes) :=
+  match b with
+  | [] => None
+  | c :: rest =>
+      if (c =? 192)%N then Some (0%Z, rest)
+      else if (c <=? 127)%N then Some (Z.of_N c, rest)
+      else if (224 <=? c)%N then Some ((Z.of_N c - 256)%Z, rest)
+      else if (c =? 204)%N then mp_read_uint 1 rest
+      else if (c =? 208)%N then mp_read_sint 1 rest
+      else if (c =? 205)%N then mp_read_uint 2 rest
+      else if (c =? 209)%N then mp_read_sint 2 rest
+      else if (c =? 206)%N then mp_read_uint 4 rest
+      else if (c =? 210)%N then mp_read_sint 4 rest
+      else if (c =? 207)%N || (c =? 211)%N then mp_read_sint 8 rest
+      else None
+  end.
+
+(** a [k]-byte big-endian length field and the bytes after it (Decoder.uint8/16/32) *)
+Definition mp_len_field (k : N) (rest : bytes) : option (N * bytes) :=
+  match take k rest with
+  | Some lb => Some (Z.to_N (be_decode lb), skipn (N.to_nat k) rest)
+  | None => None
+  end.
+
+(** readN(n) / skipN(n): the next [n] bytes and what follows; an error when fewer remain.  [n] is
+    converted to [nat] only after it is known not to exceed the input. *)
+Definition mp_payload (n : N) (rest : bytes) : option (bytes * bytes) :=
+  if (N.of_nat (length rest) <? n)%N then None
+  else Some (firstn (N.to_nat n) rest, skipn (N.to_nat n) rest).
+
+Definition mp_len_payload (k : N) (extra : N) (rest : bytes) : option (bytes * bytes) :=
+  match mp_len_field k rest with
+  | Some (n, r) => mp_payload (n + extra) r
+  | None => None
+  end.
+
+(** Decoder.DecodeString = readCode + Decoder.string(c): nil, fixstr, str8/16/32, bin8/16/32 *)
+Definition mp_read_str (b : bytes) : option (bytes * bytes) :=
+  match b with
+  | [] => None
+  | c :: rest =>
+      if (c =? 192)%N then Some ([], rest)
+      else if (160 <=? c)%N && (c <=? 191)%N then mp_payload (c - 160) rest
+      else if (c =? 217)%N || (c =? 196)%N then mp_len_payload 1 0 rest
+      else if (c =? 218)%N || (c =? 197)%N then mp_len_payload 2 0 rest
+      else if (c =? 219)%N || (c =? 198)%N then mp_len_payload 4 0 rest
+      else None
+  end.
+
+(** ** Decoder.Skip: one case for EVERY first byte 0x00-0xff.
+    [mp_header c rest] = what Skip does with a value whose first byte is [c] before it recurses:
+    [Some (k, rest')]: header and payload consumed, [k] nested values still to skip (skipSlice:
+    n, skipMap: 2n — up to 2*(2^32-1)); [None]: an error (unknown code 0xc1, short read).
+      0x00-0x7f positive fixnum      0x80-0x8f fixmap       0x90-0x9f fixarray     0xa0-0xbf fixstr
+      0xc0 nil   0xc1 (never used: error)   0xc2 false   0xc3 true
+      0xc4-0xc6 bin8/16/32           0xc7-0xc9 ext8/16/32 (length + 1 type byte)
+      0xca float32   0xcb float64    0xcc-0xcf uint8/16/32/64   0xd0-0xd3 int8/16/32/64
+      0xd4-0xd8 fixext1/2/4/8/16 (+ 1 type byte)                0xd9-0xdb str8/16/32
+      0xdc array16   0xdd array32    0xde map16   0xdf map32    0xe0-0xff negative fixnum *)
+Definition mp_drop (n : N) (rest : bytes) : option (N * bytes) :=
+  match mp_payload n rest with Some (_, r) => Some (0%N, r) | None => None end.
+Definition mp_len_drop (k extra : N) (rest : bytes) : option (N * bytes) :=
+  match mp_len_payload k extra rest with Some (_, r) => Some (0%N, r) | None => None end.
+Definition mp_children (k mult : N) (rest : bytes) : option (N * bytes) :=
+  match mp_len_field k rest with Some (n, r) => Some ((mult * n)%N, r) | None => None end.
+
+Definition mp_header (c : N) (rest : bytes) : option (N * bytes) :=
+  (if c <=? 127 then Some (0, rest)
+   else if c <=? 143 then Some (2 * (c - 128), rest)
+   else if c <=? 159 then Some (c - 144, rest)
+   else if c <=? 191 then mp_drop (c - 160) rest
+   else if c =? 192 then Some (0, rest)
+   else if c =? 193 then None
+   else if c <=? 195 then Some (0, rest)
+   else if c =? 196 then mp_len_drop 1 0 rest
+   else if c =? 197 then mp_len_drop 2 0 rest
+   else if c =? 198 then mp_len_drop 4 0 rest
+   else if c =? 199 then mp_len_drop 1 1 rest
+   else if c =? 200 then mp_len_drop 2 1 rest
+   else if c =? 201 then mp_len_drop 4 1 rest
+   else if c =? 202 then mp_drop 4 rest
+   else if c =? 203 then mp_drop 8 rest
+   else if c =? 204 then mp_drop 1 rest
+   else if c =? 205 then mp_drop 2 rest
+   else if c =? 206 then mp_drop 4 rest
+   else if c =? 207 then mp_drop 8 rest
+   else if c =? 208 then mp_drop 1 rest
+   else if c =? 209 then mp_drop 2 rest
+   else if c =? 210 then mp_drop 4 rest
+   else if c =? 211 then mp_drop 8 rest
+   else if c =? 212 then mp_drop 2 rest
+   else if c =? 213 then mp_drop 3 rest
+   else if c =? 214 then mp_drop 5 rest
+   else if c =? 215 then mp_drop 9 rest
+   else if c =? 216 then mp_drop 17 rest
+   else if c =? 217 then mp_len_drop 1 0 rest
+   else if c =? 218 then mp_len_drop 2 0 rest
+   else if c =? 219 then mp_len_drop 4 0 rest
+   else if c =? 220 then mp_children 2 1 rest
+   else if c =? 221 then mp_children 4 1 rest
+   else if c =? 222 then mp_children 2 2 rest
+   else if c =? 223 then mp_children 4 2 rest
+   else Some (0, rest))%N.
+
+(** skip [todo] consecutive values.  Go's Skip is recursive (skipSlice / skipMap call Skip per
+    element); since Skip returns nothing but an error and the read position, skipping a value with
+    [k] nested values is skipping its header and then [k] more values: the recursion is
+    transcribed as a count of values still to skip.  Every step consumes the first byte of a
+    value, so the number of Skip calls (and with it Go's recursion depth) is at most the number
+    of input bytes. *)
+Inductive skres := SkOk (rest : bytes) | SkErr | SkOutOfFuel.
+
+Fixpoint mp_skip (fuel : nat) (todo : N) (b : bytes) : skres :=
+  if (todo =? 0)%N then SkOk b else
+  match b with
+  | [] => SkErr
+  | c :: rest =>
+      match mp_header c rest with
+      | None => SkErr
+      | Some (k, rest') =>
+          match fuel with
+          | O => SkOutOfFuel
+          | S f => mp_skip f (todo - 1 + k)%N rest'
+          end
       end
   end.
+
+(** ** msgpack, the struct TimeBasedCursor{Nano int64; Id string} *)
+Inductive dres (A : Type) := DOk (a : A) | DErr | DOutOfFuel.
+Arguments DOk {A} a. Arguments DErr {A}. Arguments DOutOfFuel {A}.
+
+Definition name_nano : bytes := [78; 97; 110; 111]%N.      (* "Nano" *)
+Definition name_id : bytes := [73; 100]%N.                 (* "Id" *)
+
+(** Marshal: fixmap of 2, keys in field order, int64 as 0xd3, string with the shortest header *)
+Definition mp_encode_time (nano : Z) (id : bytes) : bytes :=
+  [130; 164]%N ++ name_nano ++ mp_encode_int nano ++ [162%N] ++ name_id ++ mp_encode_str id.
+
+(** decodeStructValue, map form: [n] times a key (DecodeString) and then either the field's
+    decoder (fields.Table[name]) or Skip *)
+Fixpoint mp_struct_map (fuel : nat) (n : N) (b : bytes) (acc : Z * bytes) : dres (Z * bytes) :=
+  if (n =? 0)%N then DOk acc else
+  match mp_read_str b with
+  | None => DErr
+  | Some (name, r) =>
+      match fuel with
+      | O => DOutOfFuel
+      | S f =>
+          if bytes_eqb name name_nano then
+            match mp_read_int r with
+            | Some (z, r') => mp_struct_map f (n - 1)%N r' (z, snd acc)
+            | None => DErr
+            end
+          else if bytes_eqb name name_id then
+            match mp_read_str r with
+            | Some (s, r') => mp_struct_map f (n - 1)%N r' (fst acc, s)
+            | None => DErr
+            end
+          else
+            match mp_skip f 1 r with
+            | SkOk r' => mp_struct_map f (n - 1)%N r' acc
+            | SkErr => DErr
+            | SkOutOfFuel => DOutOfFuel
+            end
+      end
+  end.
+
+(** array form: the fields in declaration order as far as the array goes, extra elements skipped *)
+Definition mp_struct_arr (fuel : nat) (n : N) (b : bytes) : dres (Z * bytes) :=
+  if (n =? 0)%N then DOk (0%Z, []) else
+  match mp_read_int b with
+  | None => DErr
+  | Some (z, r) =>
+      if (n =? 1)%N then DOk (z, []) else
+      match mp_read_str r with
+      | None => DErr
+      | Some (s, r') =>
+          match mp_skip fuel (n - 2)%N r' with
+          | SkOk _ => DOk (z, s)
+          | SkErr => DErr
+          | SkOutOfFuel => DOutOfFuel
+          end
+      end
+  end.
+
+Definition mp_decode_time (fuel : nat) (b : bytes) : dres (Z * bytes) :=
+  match b with
+  | [] => DErr
+  | c :: rest =>
+      if (c =? 192)%N then DOk (0%Z, [])                                    (* nil: the zero struct *)
+      else if (128 <=? c)%N && (c <=? 143)%N then mp_struct_map fuel (c - 128)%N rest (0%Z, [])
+      else if (c =? 222)%N then
+        match mp_len_field 2 rest with Some (n, r) => mp_struct_map fuel n r (0%Z, []) | None => DErr end
+      else if (c =? 223)%N then
+        match mp_len_field 4 rest with Some (n, r) => mp_struct_map fuel n r (0%Z, []) | None => DErr end
+      else if (144 <=? c)%N && (c <=? 159)%N then mp_struct_arr fuel (c - 144)%N rest
+      else if (c =? 220)%N then
+        match mp_len_field 2 rest with Some (n, r) => mp_struct_arr fuel n r | None => DErr end
+      else if (c =? 221)%N then
+        match mp_len_field 4 rest with Some (n, r) => mp_struct_arr fuel n r | None => DErr end
+      else DErr
+  end.
+
+(** ** cursors *)
+Inductive cursor := CInt (z : Z) | CStr (s : bytes) | CTime (nano : Z) (id : bytes).
+(* config.CursorType: reflect.TypeOf(0) / reflect.TypeOf("") / reflect.TypeOf(TimeBasedCursor{}) *)
+Inductive kind := KInt | KStr | KTime.
+
+Definition kind_of (c : cursor) : kind :=
+  match c with CInt _ => KInt | CStr _ => KStr | CTime _ _ => KTime end.
+
+(** MaxCursorLength (pagination.go) *)
+Definition max_cursor_length : N := 65536.
+Definition too_long (s : bytes) : bool := (max_cursor_length <? N.of_nat (length s))%N.
+
+(** the string SerializeCursor builds *)
+Definition cursor_encode (c : cursor) : bytes :=
+  b64_encode (match c with
+              | CInt z => mp_encode_int z
+              | CStr s => mp_encode_str s
+              | CTime n i => mp_encode_time n i
+              end).
+
+(** SerializeCursor: an error ([None]) when the result would exceed MaxCursorLength (the other
+    error of the real function — a Go type msgpack cannot encode — does not arise for these three
+    cursor types; RelayModelF.v treats SerializeCursor as a partial function in general) *)
+Definition cursor_encode_f (c : cursor) : option bytes :=
+  let s := cursor_encode c in if too_long s then None else Some s.
+
+(** DeserializeCursor on explicit fuel *)
+Definition cursor_decode_f (fuel : nat) (k : kind) (s : bytes) : dres cursor :=
+  if too_long s then DErr else
+  match b64_decode s with
+  | None => DErr
+  | Some b =>
+      match k with
+      | KInt => match mp_decode_int b with Some z => DOk (CInt z) | None => DErr end
+      | KStr => match mp_decode_str b with Some x => DOk (CStr x) | None => DErr end
+      | KTime => match mp_decode_time fuel b with
+                 | DOk (n, i) => DOk (CTime n i)
+                 | DErr => DErr
+                 | DOutOfFuel => DOutOfFuel
+                 end
+      end
+  end.
+
+(** DeserializeCursor; [None] is Go's nil.  The fuel is the length of the string
+    ([cursor_decode_never_out_of_fuel], CursorCodecTotal.v: [DOutOfFuel] does not occur). *)
+Definition cursor_decode (k : kind) (s : bytes) : option cursor :=
+  match cursor_decode_f (length s) k s with DOk c => Some c | _ => None end.
 
 (** the harness's cursorLess: [<] on Go ints, [<] on Go strings (bytewise lexicographic) *)
 Fixpoint bytes_ltb (a b : bytes) : bool :=
@@ -170,14 +421,20 @@ Definition cursor_ltb (a b : cursor) : bool :=
   match a, b with
   | CInt x, CInt y => Z.ltb x y
   | CStr x, CStr y => bytes_ltb x y
-  | CInt _, CStr _ => true
+  (* TimeBasedCursor.LessThan: c.Nano < o.Nano || (c.Nano == o.Nano && strings.Compare(c.Id, o.Id) < 0) *)
+  | CTime n i, CTime m j => Z.ltb n m || (Z.eqb n m && bytes_ltb i j)
+  | CInt _, _ => true
   | CStr _, CInt _ => false
+  | CStr _, CTime _ _ => true
+  | CTime _ _, _ => false
   end.
 
 (** what SerializeCursor can faithfully encode: a 64-bit int, a string shorter than 2^32 whose
-    elements are bytes *)
-Definition cursor_ok (c : cursor) : Prop :=
+    elements are bytes — and the result within MaxCursorLength *)
+Definition cursor_shape_ok (c : cursor) : Prop :=
   match c with
   | CInt z => (- 2 ^ 63 <= z < 2 ^ 63)%Z
   | CStr s => (Z.of_nat (length s) < 2 ^ 32)%Z /\ Forall (fun x => (x < 256)%N) s
+  | CTime n i => (- 2 ^ 63 <= n < 2 ^ 63)%Z /\ (Z.of_nat (length i) < 2 ^ 32)%Z /\ Forall (fun x => (x < 256)%N) i
   end.
+Definition cursor_ok (c : cursor) : Prop := cursor_shape_ok c /\ too_long (cursor_encode c) = false.
